@@ -110,19 +110,32 @@ def scan(pan, path, ts, top, hits, counts, cls, kind, L0=0.0):
         counts["max-final-delta"] = max(counts.get("max-final-delta", 0.0), dl)
         counts["max-L"] = max(counts.get("max-L", 0.0), Lest)
         if dl > JUMP_ABS + L_SAFETY * Lest * ang:
+            ra, rb = first_region(pan, path.at(t_lo)), first_region(pan, path.at(t_hi))
+            mech = "jump-inside-one-%s" % ra[1] if ra == rb and ra[0] is not None else "jump-between-regions"
             _hit(hits, pan, path, t_lo, t_hi, cls, kind, "gain jump between neighbouring directions",
-                 {"angle_rad": ang, "max_gain_change": dl, "lipschitz_estimate": Lest,
-                  "gains_a": gains(pan, path.at(t_lo)).tolist(), "gains_b": gains(pan, path.at(t_hi)).tolist()})
+                 {"angle_rad": ang, "max_gain_change": dl, "lipschitz_estimate": Lest, "accepting_region_a": ra, "accepting_region_b": rb,
+                  "gains_a": gains(pan, path.at(t_lo)).tolist(), "gains_b": gains(pan, path.at(t_hi)).tolist()}, [mech])
     return calls
 
 
-def _hit(hits, pan, path, t_lo, t_hi, cls, kind, what, detail):
+def first_region(pan, p):
+    """(index, kind, output channels) of the first region of the real inner panner that accepts p (diagnosis only)."""
+    for k, r in enumerate(pan.regions):
+        try:
+            if r.handle(np.array(p, dtype=float)) is not None:
+                return (k, c05.region_kind(r), [int(c) for c in r.output_channels])
+        except Exception:
+            pass
+    return (None, "-", [])
+
+
+def _hit(hits, pan, path, t_lo, t_hi, cls, kind, what, detail, tags=()):
     hits.append({
         "what": what,
         "input": dict(pan.spec(), direction_a=[repr(float(x)) for x in path.at(t_lo)],
                       direction_b=[repr(float(x)) for x in path.at(t_hi)], boundary_class=cls, region_kind=kind),
         "detail": detail,
-        "tags": [],
+        "tags": list(tags),
     })
 
 
@@ -131,8 +144,19 @@ def local_ts(h0=1e-2, n=8):
 
 
 def path_stream(pan, rng, n_local, n_circles):
-    """Yield (class, kind, Path, ts, top)."""
+    """Yield (class, kind, Path, ts, top).  n_local = -1: only short paths through every loudspeaker position."""
     z = np.array([0.0, 0.0, 1.0])
+    if n_local < 0:
+        for p in pan.positions:
+            q = c05.unit(p)
+            e1, e2 = tangent_basis(q)
+            dirs = [z] if abs(q[2]) < 0.999 else []
+            for _ in range(2):
+                phi = rng.uniform(0, 2 * math.pi)
+                dirs.append(math.cos(phi) * e1 + math.sin(phi) * e2)
+            for i, d in enumerate(dirs):
+                yield ("loudspeaker-meridian" if (i == 0 and len(dirs) == 3) else "loudspeaker", "-", Path(q, d), local_ts(1e-2 if i % 2 == 0 else 1e-4), 2)
+        return
     # full great circles: horizontal plane, meridians, circles through loudspeakers, random
     N = 256
     full = [2 * math.pi * i / N - math.pi for i in range(N + 1)]
@@ -196,7 +220,7 @@ def _task(args):
     calls = 0
     samples = []
     hits.extend(c05.structural_hits(pan, counts, tag))
-    for cls, kind, path, ts, top in (path_stream(pan, rng, n_local, n_circles) if n_local else []):
+    for cls, kind, path, ts, top in (path_stream(pan, rng, n_local, n_circles) if n_local else []):  # 0 = structure only
         calls += scan(pan, path, ts, top, hits, counts, cls, kind)
         if len(samples) < 2 and cls.startswith("edge"):
             samples.append({"layout": lid, "class": cls, "region": kind, "through": path.q.tolist(), "tangent": path.d.tolist()})
@@ -274,7 +298,8 @@ class C12(Spec):
         for fam, tag in ((csym, None), (casym, "asymmetric-catalogue:")):
             for lid, name, real in fam:
                 on = full is None or lid in full
-                tasks.append((lid, name, real, "%s/%d/%s" % (ctx.tier, ctx.seed, lid), max(40, n_local // 3) if on else 0,
+                # not sampled: symmetric layouts still get the paths through every loudspeaker, asymmetric ones the structural check
+                tasks.append((lid, name, real, "%s/%d/%s" % (ctx.tier, ctx.seed, lid), max(40, n_local // 3) if on else (-1 if tag is None else 0),
                               max(3, n_circles // 3) if on else 0, (tag + lid) if tag else None))
         mx_d, mx_L = 0.0, 0.0
         for lid, calls, counts, hits, samples in c05.run_pool(tasks, _task):
